@@ -121,9 +121,45 @@ func (x *X) streeConst(f *ast.File, name string) ast.Expr {
 	return nil
 }
 
+// streePinned: the definitions of Gen.Stree for the pinned tree (fall-back when the shape is not recognised).
+const streePinned = `def maxBalance : Nat := 1000
+def fracLimit : Nat := (2 * maxBalance)
+def betaOutOfRange (β : Int) : Bool := (decide (β < 0) || decide (β > maxBalance))
+def fracNum (β : Nat) : Nat := ((β + maxBalance))
+def fracDen : Nat := fracLimit
+def limitNoBalance (n : Nat) : Nat := (n + 1)
+def limitArg (size : Nat) : Nat := (size + 1)
+def limitDown (limit : Int) : Int := (limit - 1)
+def overLimit (limit : Int) : Bool := decide (limit < 0)
+def rootSize (sibSize size : Nat) : Nat := ((sibSize + 1) + size)
+def goatKeeps (height bw : Nat) : Bool := decide (height <= bw)
+def deleteThreshold (max β : Nat) : Nat := ((((max * β) + maxBalance)) / fracLimit)
+def deleteRebuild (size bw : Nat) : Bool := decide (size < bw)
+def extractMid (len : Nat) : Nat := (((len - 1)) / 2)
+def stepInit : Nat := 1
+def stepCond (step count : Nat) : Bool := decide (step <= count)
+def stepNext (step : Nat) : Nat := (((2 * step)) + 1)
+def stepFinal (step : Nat) : Nat := (step / 2)
+def packNext (left : Nat) : Nat := (left / 2)
+def leafCount (count step : Nat) : Nat := (count - step)
+def packCond (left : Nat) : Bool := decide (left > 1)
+`
+
 func init() {
 	register(&Module{Name: "Stree", Run: func(x *X) {
 		const fs, fn = "stree/stree.go", "stree/node.go"
+		// Every definition is ALWAYS emitted: when anything is not recognised the whole module falls back
+		// to the pinned expressions (and `recognised := false`), so that the driver still builds and the
+		// search for a failing input runs against the pinned model.
+		defer func() {
+			if r := recover(); r != nil {
+				x.fail("extractor panic: %v", r)
+			}
+			if len(x.why) > 0 {
+				x.out.Reset()
+				x.emit("%s", streePinned)
+			}
+		}()
 		New := x.Func(fs, "", "New")
 		toFraction := x.Func(fs, "", "toFraction")
 		limitFunc := x.Func(fs, "", "limitFunc")
